@@ -119,9 +119,7 @@ class Tokens(object):
         if conc is None:
             return ABSENT
         if not isinstance(conc, str):
-            if isinstance(conc, (bool, int, float)):
-                return "#" + json.dumps(conc)
-            conc = "!%r" % (conc,)
+            return "#" + json.dumps(conc, separators=(",", ":"))
         t = self.rev[kind].get(conc)
         if t is not None:
             return t
